@@ -299,7 +299,7 @@ func writeTable(path string) int {
 	sb.WriteString("namespace IstioModel.C19.Gen\n\n")
 	fmt.Fprintf(&sb, "def nRows : Nat := %d\n\n", nRows)
 	fmt.Fprintf(&sb, "/-- bit `Row.idx r` = result of the real function on the canonical realisation of `r` -/\n")
-	fmt.Fprintf(&sb, "def implBits : Nat := 0x%s\n\n", hex(tabs[0]))
+	fmt.Fprintf(&sb, "def implBits : Nat := 0x%s\n\n", hexOf(tabs[0]))
 	sb.WriteString("/-- the same table under each realisation variant -/\n")
 	sb.WriteString("def variantBits : List Nat := [\n")
 	for v := range tabs {
@@ -307,7 +307,7 @@ func writeTable(path string) int {
 		if v == len(tabs)-1 {
 			sep = ""
 		}
-		fmt.Fprintf(&sb, "  0x%s%s -- %s\n", hex(tabs[v]), sep, variantNames[v])
+		fmt.Fprintf(&sb, "  0x%s%s -- %s\n", hexOf(tabs[v]), sep, variantNames[v])
 	}
 	sb.WriteString("]\n\n")
 	fmt.Fprintf(&sb, "def variantNames : List String := %s\n\n", leanStrList(variantNames))
@@ -316,6 +316,7 @@ func writeTable(path string) int {
 	fmt.Fprintf(&sb, "def ignoredNamespaces : List String := %s\n", leanStrList(ignoredSorted()))
 	fmt.Fprintf(&sb, "def policyEnabled : String := %s\n", leanStr(string(inject.InjectionPolicyEnabled)))
 	fmt.Fprintf(&sb, "def policyDisabled : String := %s\n", leanStr(string(inject.InjectionPolicyDisabled)))
+	fmt.Fprintf(&sb, "def reservedContainerNames : List String := %s\n", leanStrList(reserved))
 	sb.WriteString("\nend IstioModel.C19.Gen\n")
 	if err := os.MkdirAll(dirOf(path), 0o755); err != nil {
 		fmt.Fprintln(os.Stderr, err)
@@ -347,7 +348,7 @@ func dirOf(p string) string {
 	return "."
 }
 
-func hex(b *big.Int) string {
+func hexOf(b *big.Int) string {
 	s := b.Text(16)
 	if s == "" {
 		return "0"
